@@ -441,11 +441,16 @@ impl SymExpr {
                     (lhs, SymExpr::Value(1)) => lhs,
                     (SymExpr::Value(x), SymExpr::Value(y)) if y != 0 => SymExpr::Value(x / y),
                     // x / b / c => x / (b * c)
-                    (SymExpr::Div(lhs, c1), c2) => match (&*c1, c2) {
-                        (SymExpr::Value(c1), SymExpr::Value(c2)) if *c1 != 0 && c2 != 0 => {
-                            (*lhs).clone() / SymExpr::Value(c1 * c2)
+                    (SymExpr::Div(lhs, c1), c2) => match (&*c1, &c2) {
+                        (SymExpr::Value(v1), SymExpr::Value(v2)) if *v1 != 0 && *v2 != 0 => {
+                            match v1.checked_mul(*v2) {
+                                Some(c) => (*lhs).clone() / SymExpr::Value(c),
+                                // Keep the nested division if the combined
+                                // divisor does not fit in an `i32`.
+                                None => SymExpr::Div(lhs, c1) / c2,
+                            }
                         }
-                        (c1, c2) => (*lhs).clone() / (c1.clone() * c2),
+                        (c1, _) => (*lhs).clone() / (c1.clone() * c2),
                     },
                     (lhs, rhs) => lhs / rhs,
                 }
@@ -470,11 +475,16 @@ impl SymExpr {
 
                     // x.div_ceil(b).div_ceil(c) => x.div_ceil(b * c) if b > 0
                     // and c > 0.
-                    (SymExpr::DivCeil(lhs, c1), c2) => match (&*c1, c2) {
-                        (SymExpr::Value(c1), SymExpr::Value(c2)) if *c1 > 0 && c2 > 0 => {
-                            lhs.div_ceil(&SymExpr::Value(c1 * c2))
+                    (SymExpr::DivCeil(lhs, c1), c2) => match (&*c1, &c2) {
+                        (SymExpr::Value(v1), SymExpr::Value(v2)) if *v1 > 0 && *v2 > 0 => {
+                            match v1.checked_mul(*v2) {
+                                Some(c) => lhs.div_ceil(&SymExpr::Value(c)),
+                                // Keep the nested division if the combined
+                                // divisor does not fit in an `i32`.
+                                None => SymExpr::DivCeil(lhs, c1).div_ceil(&c2),
+                            }
                         }
-                        (c1, c2) => lhs.div_ceil(&(c1.clone() * c2)),
+                        (c1, _) => lhs.div_ceil(&(c1.clone() * c2)),
                     },
                     (lhs, rhs) => lhs.div_ceil(&rhs),
                 }
